@@ -6,6 +6,7 @@ A *program* ("prog") is plain data describing one DAG skeleton per rank:
      "ranks": [{"nodes": [node, ...], "outs": [[name, idx], ...]}, ...]}
 
     node = {"k": "in",   "name": "x"}
+         | {"k": "dw",   "vals": [..]}                          data wrapper (fixed data)
          | {"k": "recv", "src": s, "tag": t, "v": 0}            v > 0: extra pytato tag,
                                                                  makes a distinct node
          | {"k": "op",   "args": [i, ...], "st": 0|1}           affine combination with
@@ -86,6 +87,9 @@ def build_rank(prog: dict, r: int) -> tuple[Any, list[Any]]:
             shape = tuple(nd.get("shape", SHAPE))
             a = cons(("in", nd["name"], shape),
                      lambda: pt.make_placeholder(nd["name"], shape, DTYPE))
+        elif k == "dw":
+            vals = np.array(nd["vals"]).astype(DTYPE)
+            a = cons(("dw", tuple(nd["vals"])), lambda: pt.make_data_wrapper(vals))
         elif k == "recv":
             shape = tuple(nd.get("shape", SHAPE))
 
